@@ -1,4 +1,5 @@
 """Panel matrices against PanelModel.tla (shared by C02 k0, C03 kG0, C04 kM, C19 kA/cA)."""
+import gc
 import math
 import random
 
@@ -801,6 +802,8 @@ def run_prop(prop, qs, tier, seed, build, nrand_quick=40, nrand_thorough=600, wh
         meta[eid + 1] = (pd, r)
         eid += 2
         groups.append(g)
+        if k % 50 == 49:
+            gc.freeze()       # the package calls gc.collect() in every matrix routine: keep the recorded trace out of its reach
         rep.nontrivial(key_of(pd, r))
     for what_, rp in extra_violations:
         rep.violation(what_, rp)
